@@ -23,7 +23,7 @@ def corpus_cases(rng) -> list[tuple[str, str]]:
         parts = re.split(r"^\[case ([^\]]+)\]\n", txt, flags=re.M)
         for i in range(1, len(parts), 2):
             name, body = parts[i], parts[i + 1]
-            if re.search(r"^\[file |^# flags:|^# cmd:|^\[delete|^\[stale|^\[rechecked|^\[out2|type: *ignore|^-- ?skip", body, flags=re.M):
+            if re.search(r"^\[file |^# flags:|^# cmd:|^# mypy:|^\[delete|^\[stale|^\[rechecked|^\[out2|type: *ignore|^-- ?skip", body, flags=re.M):
                 continue
             main = re.split(r"^\[[a-z]", body, flags=re.M)[0]
             if "# E:" not in main:
@@ -232,18 +232,22 @@ def recording():
 
 
 # ------------------------------------------------------------------ running the real tool
-def run_tool(workdir: str, cache: str, src: str, flags: list[str]) -> dict:
-    """mypy.api.run on `src` (written to <workdir>/main.py) while recording the sink."""
+MAIN = "<string>"
+
+
+def run_tool(workdir: str, cache: str, src: str, flags: list[str], inline: list[str] = ()) -> dict:
+    """`mypy <flags> -c <src>` through mypy.api.run while recording the sink.  `inline` are per-module
+    settings appended as trailing `# mypy: ...` comment lines (they do not move any line and leave the options
+    of every other module — hence the incremental cache of typeshed — untouched)."""
     from mypy import api
-    path = os.path.join(workdir, "main.py")
-    with open(path, "w", encoding="utf8") as f:
-        f.write(src)
+    text = src + ("" if not inline else ("" if src.endswith("\n") else "\n") + "".join("# mypy: %s\n" % i for i in inline))
     cwd = os.getcwd()
+    os.makedirs(workdir, exist_ok=True)
     os.chdir(workdir)
     try:
         with recording() as rs:
             out, err, status = api.run(["--cache-dir", cache, "--no-error-summary", "--no-color-output",
-                                        "--show-traceback"] + flags + ["main.py"])
+                                        "--show-traceback"] + flags + ["-c", text])
     finally:
         os.chdir(cwd)
     return {"stdout": out, "stderr": err, "status": status, "rec": rs.main()}
@@ -262,11 +266,13 @@ def add_ignores(src: str, annots: dict[int, list[str] | None]) -> str | None:
     return "\n".join(lines)
 
 
-def transform_events(events: list[list], main_file: int, annots: dict[int, list[int]], disable: list[int]) -> list[list]:
+def transform_events(events: list[list], main_file: int, annots: dict[int, list[int]], disable: list[int],
+                     inline: bool = True) -> list[list]:
     """The recorded stream of P as the model should see it for P + annotations / + disabled codes:
-    every ignore map of `main_file` gets the new lines (dict order = line order, as fastparse builds it),
-    every options snapshot gets the extra disabled codes (and loses them from `enabled`: `--disable-error-code`
-    is applied before `--enable-error-code` wins, so a code that is explicitly enabled stays enabled)."""
+    every ignore map of `main_file` gets the new lines (dict order = line order, as fastparse builds it);
+    options snapshots get the extra disabled codes — `inline` (`# mypy: disable-error-code=`, Options.apply_changes):
+    only the program's own snapshots, the code is added to `disabled` and dropped from `enabled`; command line
+    (`--disable-error-code`, Options.process_error_codes): every snapshot, and an explicitly enabled code stays enabled."""
     out = []
     for ev in events:
         if ev[0] == "I" and ev[1] == main_file and annots:
@@ -274,9 +280,10 @@ def transform_events(events: list[list], main_file: int, annots: dict[int, list[
             for l, cs in annots.items():
                 d[l] = cs
             out.append(["I", ev[1], [[l, d[l]] for l in sorted(d)], ev[3]])
-        elif ev[0] == "F" and disable:
-            dis = sorted(set(ev[3]) | {c for c in disable if c not in ev[2]})
-            out.append(["F", ev[1], ev[2], dis, ev[4], ev[5]])
+        elif ev[0] == "F" and disable and inline and ev[1] == main_file:
+            out.append(["F", ev[1], [c for c in ev[2] if c not in disable], sorted(set(ev[3]) | set(disable)), ev[4], ev[5]])
+        elif ev[0] == "F" and disable and not inline:
+            out.append(["F", ev[1], ev[2], sorted(set(ev[3]) | {c for c in disable if c not in ev[2]}), ev[4], ev[5]])
         else:
             out.append(ev)
     return out
